@@ -1,74 +1,433 @@
+// C05 harness: schedules of in-flight queries, reloads and on-disk updates are replayed
+// against the real handler (dnsserver.FBDNSDB) through its verif yield points; the
+// observations (order of steps, stamps of every response, Reload results) are emitted
+// as JSON lines.  Shared machinery: verifharness/rl.
 package main
 
 import (
-	"flag"
+	"encoding/json"
 	"fmt"
 	"os"
+	"path/filepath"
+	"sync"
+	"time"
 
+	"verifharness/hlib"
 	"verifharness/rl"
 )
 
-func run(backend string, cfg rl.Config, disk map[int]rl.File, specs []rl.ThreadSpec, sched []int) {
-	dir, _ := os.MkdirTemp("/var/tmp", "c05x")
-	defer os.RemoveAll(dir)
-	os.Setenv("TMPDIR", dir)
-	w := &rl.World{Dir: dir, Backend: backend}
-	for p, f := range disk {
-		if err := w.Create(p, f); err != nil {
-			fmt.Println("create:", err)
+const (
+	ipLoc1 = "198.51.100.7"
+	ipLoc2 = "192.0.2.7"
+)
+
+func q(client int, name string, qtype int, ip string) rl.ThreadSpec {
+	return rl.ThreadSpec{Kind: "q", Client: client, Name: name, Qtype: qtype, IP: ip}
+}
+func full(p int) rl.ThreadSpec { return rl.ThreadSpec{Kind: "r", Full: true, Path: p} }
+func partial() rl.ThreadSpec   { return rl.ThreadSpec{Kind: "r"} }
+func env(p int, f rl.File) rl.ThreadSpec {
+	return rl.ThreadSpec{Kind: "e", Path: p, File: f}
+}
+func gen(s int) rl.File      { return rl.File{Stamp: s, OK: true, Key: true} }
+func genNoKey(s int) rl.File { return rl.File{Stamp: s, OK: true, Key: false} }
+
+var mx = func(c int) rl.ThreadSpec { return q(c, "example.com.", 15, ipLoc1) }
+
+// standard disk: p0 = generation 1 (served first), p1 = 2, p2 = 3, p3 = 4 without the
+// validation key, p4 unreadable; p7 does not exist
+func stdDisk() []rl.DiskEntry {
+	return []rl.DiskEntry{{Path: 0, File: gen(1)}, {Path: 1, File: gen(2)}, {Path: 2, File: gen(3)},
+		{Path: 3, File: genNoKey(4)}, {Path: 4, File: rl.File{Stamp: 9, OK: false}}}
+}
+func smallDisk(paths ...int) []rl.DiskEntry {
+	var d []rl.DiskEntry
+	for _, e := range stdDisk() {
+		for _, p := range paths {
+			if e.Path == p {
+				d = append(d, e)
+			}
+		}
+	}
+	return d
+}
+
+func rep(t, n int) []int {
+	r := make([]int, n)
+	for i := range r {
+		r[i] = t
+	}
+	return r
+}
+func cat(l ...[]int) []int {
+	var r []int
+	for _, x := range l {
+		r = append(r, x...)
+	}
+	return r
+}
+
+// all merges of na steps of thread a and nb steps of thread b in which a's first step does
+// not fall between b's first and last step (a = query, b = reload holding the write lock)
+func validMerges(a, na, b, nb int) [][]int {
+	var res [][]int
+	var rec func(cur []int, ia, ib int)
+	rec = func(cur []int, ia, ib int) {
+		if ia == na && ib == nb {
+			res = append(res, append([]int{}, cur...))
 			return
 		}
-	}
-	st := rl.NewSafeStats()
-	cfg.Backend = backend
-	h, err := rl.NewHandler(w, cfg, 0, st)
-	if err != nil {
-		fmt.Println("handler:", err)
-		return
-	}
-	r := rl.NewRunner(w, h, st, disk, specs)
-	r.Run(sched)
-	fmt.Printf("%s cfg=%+v err=%q\n steps=%v\n", backend, cfg, r.Err, r.Steps)
-	for i, s := range specs {
-		switch s.Kind {
-		case "q":
-			fmt.Printf("  q%d %s: rcode=%d ans=%v extra=%v hit=%d\n", i, s.Name, r.Resps[i].Rcode, r.Resps[i].Ans, r.Resps[i].Extra, r.Resps[i].Hit)
-		case "r":
-			fmt.Printf("  r%d: %s\n", i, r.RelErr[i])
+		if ia < na && !(ia == 0 && ib > 0 && ib < nb) {
+			rec(append(cur, a), ia+1, ib)
+		}
+		if ib < nb {
+			rec(append(cur, b), ia, ib+1)
 		}
 	}
-	h.Close()
+	rec(nil, 0, 0)
+	return res
+}
+
+type genCase struct{ c rl.Case }
+
+// ---------------------------------------------------------------- named shapes
+
+func shapeF5(be string) rl.Case {
+	// query parked at answered; primary updated; partial reload completes; query resumes
+	return rl.Case{Kind: "sched", Class: "f5-shape", Cfg: rl.Config{Backend: be}, Disk: smallDisk(0), P0: 0,
+		Threads: []rl.ThreadSpec{mx(1), env(0, gen(5)), partial(), mx(1)},
+		Sched:   cat(rep(0, 5), rep(1, 1), rep(2, 5), rep(0, 3), rep(3, 8))}
+}
+func shapeF23(be string) rl.Case {
+	return rl.Case{Kind: "sched", Class: "f23-shape", Cfg: rl.Config{Backend: be, VKey: true}, Disk: smallDisk(0), P0: 0,
+		Threads: []rl.ThreadSpec{mx(1), env(0, genNoKey(5)), partial(), mx(1)},
+		Sched:   cat(rep(0, 8), rep(1, 1), rep(2, 5), rep(3, 8))}
+}
+func shapeF24(be string) rl.Case {
+	return rl.Case{Kind: "sched", Class: "f24-shape", Cfg: rl.Config{Backend: be, Timeout0: true}, Disk: smallDisk(0), P0: 0,
+		Threads: []rl.ThreadSpec{mx(1), env(0, gen(5)), partial(), mx(1)},
+		Sched:   cat(rep(0, 8), rep(1, 1), rep(2, 5), rep(3, 8))}
+}
+func shapeFollow(be string) rl.Case {
+	// full switch to p1, p1 updated, partial reload, query: must see the update of p1, not p0
+	return rl.Case{Kind: "sched", Class: "partial-follows", Cfg: rl.Config{Backend: be}, Disk: smallDisk(0, 1), P0: 0,
+		Threads: []rl.ThreadSpec{full(1), mx(1), env(1, gen(6)), env(0, gen(5)), partial(), mx(1)},
+		Sched:   cat(rep(0, 5), rep(1, 8), rep(2, 1), rep(3, 1), rep(4, 5), rep(5, 8))}
+}
+func shapeFailures(be string) rl.Case {
+	// missing, unreadable, nokey: each followed by a query; then a partial reload and a query
+	return rl.Case{Kind: "sched", Class: "failures", Cfg: rl.Config{Backend: be, VKey: true}, Disk: smallDisk(0, 3, 4), P0: 0,
+		Threads: []rl.ThreadSpec{full(7), mx(1), full(4), mx(1), full(3), mx(1), partial(), mx(1)},
+		Sched:   cat(rep(0, 2), rep(1, 8), rep(2, 2), rep(3, 8), rep(4, 2), rep(5, 8), rep(6, 5), rep(7, 8))}
+}
+func shapeFailedThenPartial(be string) rl.Case {
+	// a failed full reload must not redirect later partial reloads (path updated only on success)
+	return rl.Case{Kind: "sched", Class: "failed-then-partial", Cfg: rl.Config{Backend: be, VKey: true}, Disk: smallDisk(0, 3), P0: 0,
+		Threads: []rl.ThreadSpec{full(3), partial(), mx(1), full(7), partial(), mx(2)},
+		Sched:   cat(rep(0, 2), rep(1, 5), rep(2, 8), rep(3, 2), rep(4, 5), rep(5, 8))}
+}
+func shapeTimeoutFull(be string) rl.Case {
+	return rl.Case{Kind: "sched", Class: "timeout-full", Cfg: rl.Config{Backend: be, Timeout0: true}, Disk: smallDisk(0, 1), P0: 0,
+		Threads: []rl.ThreadSpec{mx(1), full(1), mx(1)},
+		Sched:   cat(rep(0, 3), rep(1, 2), rep(0, 5), rep(2, 8))}
+}
+func shapeBlocked(be string) rl.Case {
+	// a query started while the reload holds the lock blocks and proceeds after the unlock
+	return rl.Case{Kind: "sched", Class: "blocked-probe", Cfg: rl.Config{Backend: be}, Disk: smallDisk(0, 1), P0: 0,
+		Threads: []rl.ThreadSpec{full(1), mx(1), partial()},
+		Sched:   cat(rep(0, 2), rep(1, 1), rep(2, 1), rep(0, 3))}
+}
+func shapeVisible(be string) rl.Case {
+	return rl.Case{Kind: "sched", Class: "visible", Cfg: rl.Config{Backend: be}, Disk: smallDisk(0, 1, 2), P0: 0,
+		Threads: []rl.ThreadSpec{mx(1), full(1), mx(1), full(2), mx(1), q(2, "geo.example.com.", 1, ipLoc2)},
+		Sched:   cat(rep(0, 4), rep(1, 5), rep(2, 8), rep(0, 4), rep(3, 5), rep(4, 8), rep(5, 8))}
+}
+
+// ---------------------------------------------------------------- random schedules
+
+var queryMenu = []func(c int) rl.ThreadSpec{
+	func(c int) rl.ThreadSpec { return q(c, "example.com.", 15, ipLoc1) },
+	func(c int) rl.ThreadSpec { return q(c, "example.com.", 15, ipLoc1) },
+	func(c int) rl.ThreadSpec { return q(c, "www.example.com.", 1, ipLoc1) },
+	func(c int) rl.ThreadSpec { return q(c, "geo.example.com.", 1, ipLoc2) },
+	func(c int) rl.ThreadSpec { return q(c, "nx.example.com.", 1, ipLoc1) },
+	func(c int) rl.ThreadSpec { return q(c, "x.sub.example.com.", 1, ipLoc1) },
+	func(c int) rl.ThreadSpec { return q(c, "txt.example.com.", 16, ipLoc2) },
+	func(c int) rl.ThreadSpec { return q(c, "other.org.", 1, ipLoc1) },
+	func(c int) rl.ThreadSpec { return q(c, "wrr.example.com.", 1, ipLoc1) },
+}
+
+// randomCase: nq queries x nr reloads (+ on-disk updates), a random interleaving in which
+// threads are (mostly) started only when the write lock is predicted to be free
+func randomCase(r *hlib.Rng, be string, nq, nr int, cache bool) rl.Case {
+	c := rl.Case{Kind: "sched", Class: fmt.Sprintf("random-%dq%dr", nq, nr), Cfg: rl.Config{Backend: be, Cache: cache}, P0: 0}
+	c.Cfg.VKey = r.Chance(1, 2)
+	used := map[int]bool{0: true}
+	nextStamp := 5
+	rocks := be != "cdb"
+	for i := 0; i < nq; i++ {
+		c.Threads = append(c.Threads, queryMenu[r.Intn(len(queryMenu))](1+r.Intn(2)))
+	}
+	envPaths := map[int]bool{}
+	for i := 0; i < nr; i++ {
+		switch r.Pick([]int{4, 4, 1, 1, 1}) {
+		case 0: // full switch to a good generation
+			p := 1 + r.Intn(2)
+			used[p] = true
+			c.Threads = append(c.Threads, full(p))
+		case 1: // partial, usually after an update of some path
+			if !(rocks && cache) { // C12 keeps catch-ups out (F5 would mix into cache entries)
+				p := r.Intn(2)
+				if !envPaths[p] && r.Chance(3, 4) {
+					envPaths[p] = true
+					used[p] = true
+					c.Threads = append(c.Threads, env(p, gen(nextStamp)))
+					nextStamp++
+				}
+				c.Threads = append(c.Threads, partial())
+			} else {
+				c.Threads = append(c.Threads, full(2))
+				used[2] = true
+			}
+		case 2:
+			c.Threads = append(c.Threads, full(7)) // missing
+		case 3:
+			used[4] = true
+			c.Threads = append(c.Threads, full(4)) // unreadable
+		default:
+			used[3] = true
+			c.Threads = append(c.Threads, full(3)) // no validation key (succeeds when no key is configured)
+		}
+	}
+	for p := range used {
+		c.Disk = append(c.Disk, smallDisk(p)...)
+	}
+	// order the disk for reproducible output
+	for i := range c.Disk {
+		for j := i + 1; j < len(c.Disk); j++ {
+			if c.Disk[j].Path < c.Disk[i].Path {
+				c.Disk[i], c.Disk[j] = c.Disk[j], c.Disk[i]
+			}
+		}
+	}
+	// interleaving
+	left := make([]int, len(c.Threads))
+	for i, t := range c.Threads {
+		switch t.Kind {
+		case "q":
+			left[i] = 8
+		case "r":
+			left[i] = 5
+		default:
+			left[i] = 1
+		}
+	}
+	started := make([]bool, len(c.Threads))
+	holder := -1
+	for guard := 0; guard < 200; guard++ {
+		var cand []int
+		for i := range c.Threads {
+			if left[i] > 0 {
+				cand = append(cand, i)
+			}
+		}
+		if len(cand) == 0 {
+			break
+		}
+		i := cand[r.Intn(len(cand))]
+		if !started[i] && c.Threads[i].Kind != "e" && holder != -1 && holder != i {
+			if !r.Chance(1, 12) {
+				continue // would block: mostly avoided, sometimes probed
+			}
+			c.Sched = append(c.Sched, i) // blocked probe; the thread proceeds by itself later
+			started[i] = true
+			continue
+		}
+		c.Sched = append(c.Sched, i)
+		started[i] = true
+		left[i]--
+		if c.Threads[i].Kind == "r" {
+			if left[i] == 4 {
+				holder = i
+			}
+			if left[i] == 0 {
+				holder = -1
+			}
+		}
+	}
+	return c
+}
+
+// ---------------------------------------------------------------- driver
+
+func generate(a *hlib.Args) []rl.Case {
+	var cases []rl.Case
+	thorough := a.Tier == "thorough"
+	// 1. cdb: every schedule of one query and one reload (full switch; partial after the file
+	// was replaced), plus every failing kind on a sample of the interleavings
+	full1 := validMerges(0, 8, 1, 5)
+	for _, s := range full1 {
+		cases = append(cases, rl.Case{Kind: "sched", Class: "all-1q1r-full", Cfg: rl.Config{Backend: "cdb"}, Disk: smallDisk(0, 1), P0: 0,
+			Threads: []rl.ThreadSpec{mx(1), full(1)}, Sched: s})
+	}
+	part1 := validMerges(1, 8, 2, 5)
+	for _, s := range part1 {
+		cases = append(cases, rl.Case{Kind: "sched", Class: "all-1q1r-partial", Cfg: rl.Config{Backend: "cdb"}, Disk: smallDisk(0), P0: 0,
+			Threads: []rl.ThreadSpec{env(0, gen(5)), mx(1), partial()}, Sched: cat([]int{0}, s)})
+	}
+	fails := []struct {
+		name string
+		cfg  rl.Config
+		r    rl.ThreadSpec
+	}{
+		{"missing", rl.Config{Backend: "cdb"}, full(7)},
+		{"unreadable", rl.Config{Backend: "cdb"}, full(4)},
+		{"nokey", rl.Config{Backend: "cdb", VKey: true}, full(3)},
+		{"timeout", rl.Config{Backend: "cdb", Timeout0: true}, full(1)},
+		{"timeout-partial", rl.Config{Backend: "cdb", Timeout0: true}, partial()},
+	}
+	failMerges := validMerges(0, 8, 1, 2)
+	for _, f := range fails {
+		for k, s := range failMerges {
+			if !thorough && k%2 == 1 {
+				continue
+			}
+			// a second query after everything checks what is served afterwards
+			cases = append(cases, rl.Case{Kind: "sched", Class: "fail-" + f.name, Cfg: f.cfg, Disk: smallDisk(0, 1, 3, 4), P0: 0,
+				Threads: []rl.ThreadSpec{mx(1), f.r, mx(1)}, Sched: cat(s, rep(2, 8))})
+		}
+	}
+	// 2. named shapes on every backend (the RocksDB ones are where F5, F23, F24 live)
+	backends := []string{"cdb", "rdb2", "rdb1"}
+	for _, be := range backends {
+		for _, f := range []func(string) rl.Case{shapeF5, shapeF23, shapeF24, shapeFollow, shapeFailures,
+			shapeFailedThenPartial, shapeTimeoutFull, shapeBlocked, shapeVisible} {
+			if be == "rdb1" && !thorough {
+				c := f(be)
+				if c.Class != "f5-shape" && c.Class != "partial-follows" {
+					continue
+				}
+			}
+			cases = append(cases, f(be))
+		}
+	}
+	// 3. seeded random schedules
+	r := hlib.NewRng(a.Seed, 5)
+	n := a.N
+	for i := 0; i < n; i++ {
+		cases = append(cases, randomCase(r, "cdb", 2, 2, false))
+	}
+	nr := 6
+	if thorough {
+		nr = 120
+	}
+	for i := 0; i < nr; i++ {
+		be := "rdb2"
+		if thorough && i%2 == 1 {
+			be = "rdb1"
+		}
+		if i%3 == 0 {
+			cases = append(cases, randomCase(r, be, 1, 1, false))
+		} else {
+			cases = append(cases, randomCase(r, be, 2, 2, false))
+		}
+	}
+	if thorough {
+		// every schedule of one query and one partial reload on RocksDB (F5 appears in many of them)
+		for k, s := range part1 {
+			if k%4 == 0 {
+				cases = append(cases, rl.Case{Kind: "sched", Class: "all-1q1r-partial", Cfg: rl.Config{Backend: "rdb2"}, Disk: smallDisk(0), P0: 0,
+					Threads: []rl.ThreadSpec{env(0, gen(5)), mx(1), partial()}, Sched: cat([]int{0}, s)})
+			}
+		}
+		for i := 0; i < 3*n; i++ {
+			cases = append(cases, randomCase(r, "cdb", 3, 2, false))
+		}
+	}
+	return cases
+}
+
+func runAll(a *hlib.Args, e *hlib.Emitter, cases []rl.Case) error {
+	scratch := a.Scratch
+	if scratch == "" {
+		d, err := os.MkdirTemp("/var/tmp", "c05-")
+		if err != nil {
+			return err
+		}
+		defer os.RemoveAll(d)
+		scratch = d
+	}
+	base := filepath.Join(scratch, "c05run")
+	os.RemoveAll(base)
+	if err := os.MkdirAll(filepath.Join(base, "glog"), 0o755); err != nil {
+		return err
+	}
+	defer os.RemoveAll(base)
+	os.Setenv("TMPDIR", base)
+	rl.QuietLogs()
+	pool := &rl.Pool{Dir: filepath.Join(base, "tpl")}
+
+	out := make([]rl.Case, len(cases))
+	spent := map[string]time.Duration{}
+	var mu sync.Mutex
+	var wg sync.WaitGroup
+	idx := make(chan int, len(cases))
+	for i := range cases {
+		idx <- i
+	}
+	close(idx)
+	workers := 8
+	for wkr := 0; wkr < workers; wkr++ {
+		wg.Add(1)
+		go func(wkr int) {
+			defer wg.Done()
+			for i := range idx {
+				c := cases[i]
+				c.Derive()
+				t1 := time.Now()
+				c.Steps, c.Resps, c.RelErr, c.Err = rl.RunSched(pool, filepath.Join(base, fmt.Sprintf("w%d-%d", wkr, i)), &c, nil)
+				mu.Lock()
+				spent[c.Class+":"+c.Cfg.Backend] += time.Since(t1)
+				mu.Unlock()
+				out[i] = c
+			}
+		}(wkr)
+	}
+	wg.Wait()
+	if os.Getenv("C05_PROFILE") != "" {
+		for k, v := range spent {
+			fmt.Fprintf(rl.Stderr, "  %-32s %v\n", k, v)
+		}
+	}
+	for _, c := range out {
+		e.Emit(c)
+	}
+	return nil
 }
 
 func main() {
-	flag.Set("logtostderr", "true")
-	flag.Set("stderrthreshold", "FATAL")
-	flag.Parse()
-	q := func(name string, t int) rl.ThreadSpec {
-		return rl.ThreadSpec{Kind: "q", Name: name, Qtype: t, IP: "198.51.100.7"}
-	}
-	for _, be := range []string{"cdb", "rdb1", "rdb2"} {
-		g1 := rl.File{Stamp: 1, OK: true, Key: true}
-		g2 := rl.File{Stamp: 2, OK: true, Key: true}
-		g3nokey := rl.File{Stamp: 3, OK: true, Key: false}
-		bad := rl.File{Stamp: 9, OK: false}
-		// F5: MX query, partial reload between answered and additional
-		run(be, rl.Config{}, map[int]rl.File{0: g1}, []rl.ThreadSpec{q("example.com.", 15), {Kind: "e", Path: 0, File: g2}, {Kind: "r"}, q("example.com.", 15)},
-			[]int{0, 0, 0, 0, 0, 1, 2, 2, 2, 2, 2, 0, 0, 0, 3})
-		// F6: cache; query computed on old gen inserts after purge
-		run(be, rl.Config{Cache: true, LRU: 10}, map[int]rl.File{0: g1, 1: g2}, []rl.ThreadSpec{q("www.example.com.", 1), {Kind: "r", Full: true, Path: 1}, q("www.example.com.", 1)},
-			[]int{0, 0, 0, 0, 0, 0, 1, 1, 1, 1, 1, 0, 0, 2})
-		// failures: missing, unreadable, nokey full; then query
-		run(be, rl.Config{VKey: true}, map[int]rl.File{0: g1, 2: g3nokey, 3: bad}, []rl.ThreadSpec{{Kind: "r", Full: true, Path: 7}, {Kind: "r", Full: true, Path: 3}, {Kind: "r", Full: true, Path: 2}, q("example.com.", 15), {Kind: "r"}, q("example.com.", 15)},
-			[]int{0, 0, 1, 1, 2, 2, 3, 3, 3, 3, 3, 3, 3, 3, 4, 4, 4, 4, 4, 5})
-		// partial + validation failure after update removing key
-		run(be, rl.Config{VKey: true}, map[int]rl.File{0: g1}, []rl.ThreadSpec{{Kind: "e", Path: 0, File: g3nokey}, {Kind: "r"}, q("example.com.", 15)},
-			[]int{0, 1, 1, 1, 1, 1, 2})
-		// timeout: full, partial
-		run(be, rl.Config{Timeout0: true}, map[int]rl.File{0: g1, 1: g2}, []rl.ThreadSpec{{Kind: "r", Full: true, Path: 1}, q("example.com.", 15), {Kind: "e", Path: 0, File: g2}, {Kind: "r"}, q("example.com.", 15)},
-			[]int{0, 0, 1, 2, 3, 3, 4})
-		// blocked probe: query started while reload holds lock
-		run(be, rl.Config{}, map[int]rl.File{0: g1, 1: g2}, []rl.ThreadSpec{{Kind: "r", Full: true, Path: 1}, q("example.com.", 15)},
-			[]int{0, 1, 0, 0})
-	}
+	hlib.Main(func(a *hlib.Args, e *hlib.Emitter) error {
+		t0 := time.Now()
+		var cases []rl.Case
+		if a.Replay != "" {
+			raw, err := hlib.ReadReplay(a.Replay)
+			if err != nil {
+				return err
+			}
+			for _, m := range raw {
+				b, _ := json.Marshal(m)
+				var c rl.Case
+				if err := json.Unmarshal(b, &c); err != nil {
+					return err
+				}
+				c.Steps, c.Resps, c.RelErr, c.Err = nil, nil, nil, ""
+				cases = append(cases, c)
+			}
+		} else {
+			cases = generate(a)
+		}
+		err := runAll(a, e, cases)
+		fmt.Fprintf(rl.Stderr, "c05: %d cases in %v\n", len(cases), time.Since(t0))
+		return err
+	})
 }
